@@ -65,9 +65,20 @@ FmtPool == [
   zero  |-> ZeroFmt,
   bold  |-> [ZeroFmt EXCEPT !.b = TRUE, !.size = 10, !.color = "FF0000", !.hash = TRUE, !.ff = "Arial", !.fn = "Courier New"],
   ital  |-> [ZeroFmt EXCEPT !.i = TRUE, !.u = TRUE, !.st = TRUE, !.size = 9, !.color = "8E8E8E", !.fn = "SimSun", !.hl = "yellow"],
-  neg   |-> [ZeroFmt EXCEPT !.size = -4, !.ff = "Georgia", !.b = TRUE]
+  neg   |-> [ZeroFmt EXCEPT !.size = -4, !.ff = "Georgia", !.b = TRUE],
+  \* formats that set exactly one attribute
+  b1    |-> [ZeroFmt EXCEPT !.b = TRUE],
+  i1    |-> [ZeroFmt EXCEPT !.i = TRUE],
+  u1    |-> [ZeroFmt EXCEPT !.u = TRUE],
+  st1   |-> [ZeroFmt EXCEPT !.st = TRUE],
+  size1 |-> [ZeroFmt EXCEPT !.size = 13],
+  col1  |-> [ZeroFmt EXCEPT !.color = "00B050"],
+  ff1   |-> [ZeroFmt EXCEPT !.ff = "Verdana"],
+  fn1   |-> [ZeroFmt EXCEPT !.fn = "Tahoma"],
+  hl1   |-> [ZeroFmt EXCEPT !.hl = "green"]
 ]
-FmtNames == {"nil", "zero", "bold", "ital", "neg"}
+FmtSingles == {"b1", "i1", "u1", "st1", "size1", "col1", "ff1", "fn1", "hl1"}
+FmtNames == {"nil", "zero", "bold", "ital", "neg"} \cup FmtSingles
 
 \* what a run of the part must show for a format argument (half-points, "#" dropped,
 \* FontFamily preferred to its alias FontName, non-positive size = no size)
@@ -239,7 +250,9 @@ ApplyD(st, op, ch, design) ==
                      !.def = [s \in Slots |-> [st.def[s] EXCEPT !.items = RenderItems(@, Subst(op))]],
                      !.clk = n]
      \* opening keeps every definition whatever the parts are called
-     ELSE IF op.op = "Reopen" /\ op.via = "word" THEN
+     \* (via "word": Word-style part names; "wordabs" / "worddot": the same with the relationship targets spelt as
+     \* absolute part names "/word/header1.xml" or with a dot segment "./header1.xml")
+     ELSE IF op.op = "Reopen" /\ op.via \in {"word", "wordabs", "worddot"} THEN
           [st EXCEPT !.names = "foreign", !.clk = n]
      \* page settings, body content without relationships, Save / ToBytes, Reopen: nothing changes
      ELSE [st EXCEPT !.clk = n]
